@@ -269,29 +269,41 @@ def one_job(pid, tier, seed, job, bins, only=None):
     return st, outs, table, jkey, tag
 
 
-def trace_props(op):
-    """properties an event of this call speaks about (mirrors harness/src/replay.rs op_props)"""
+def trace_props(op, why):
+    """properties a rejected event contradicts: `why` names the group of conjuncts of Trace.tla that failed"""
+    if why in ("WF", "CHAIN"):
+        return {"C05", "C03"}
+    if why == "VIOL":
+        return {"C02"}
     n = op.get("name", "")
     if n in ("insert", "insert_key_value", "checked_insert"):
-        return {"C01", "C12", "C03", "C02", "C05"}
-    if n in ("get", "get_mut", "contains_key", "index", "index_mut", "remove", "retain", "clear", "drop", "get_key_value", "remove_entry"):
-        return {"C01", "C02", "C05", "C12"}
-    if n in ("drain", "s_drain"):
-        return {"C01", "C07", "C10", "C12", "C02"}
+        return {"C01", "C12", "C03"}
+    if n in ("get", "get_mut", "contains_key", "index", "index_mut", "remove", "get_key_value", "remove_entry"):
+        return {"C01"}
+    if n in ("retain", "clear", "drop"):
+        return {"C01", "C02"}
+    if n == "drain":
+        return {"C01", "C10", "C02"}
+    if n == "s_drain":
+        return {"C07", "C10", "C02"}
     if n == "cursor":
-        return {"C10", "C12", "C02"} if op.get("kind", "").startswith("into_") else {"C09", "C12"}
+        return {"C10", "C02"} if op.get("kind", "").startswith("into_") else {"C09"}
     if n == "entry":
-        return {"C11", "C12", "C03", "C02", "C05"}
+        return {"C11", "C12", "C03"}
     if n == "disjoint":
         return {"C13", "C18"} if op.get("unchecked") else {"C13"}
-    if n in ("s_iter",):
-        return {"C09", "C12"}
-    if n in ("s_into_iter",):
-        return {"C10", "C12", "C02"}
+    if n == "s_iter":
+        return {"C09"}
+    if n == "s_into_iter":
+        return {"C10", "C02"}
     if n == "s_extend":
-        return {"C07", "C16", "C12", "C03", "C02", "C05"}
+        return {"C07", "C16", "C03"}
+    if n in ("s_insert", "s_replace"):
+        return {"C07", "C12", "C03"}
+    if n in ("s_get", "s_take"):
+        return {"C07", "C12"}
     if n.startswith("s_"):
-        return {"C07", "C12", "C02", "C05", "C03"}
+        return {"C07"}
     return {"C01"}
 
 
@@ -299,7 +311,7 @@ def trace_job(pid, tier, seed, job, bins, tag, jkey):
     """Direction B: record long random histories of the real crate, validate them with TLC
     against spec/Trace.tla (the ideal dictionary of Dict.tla)."""
     outs = []
-    bins = {k: v for k, v in bins.items() if k in ("debug", "release")}
+    bins = {k: v for k, v in bins.items() if k in job.get("profiles", ["debug", "release"])}
     agg = {"tag": tag, "generated": 0, "distinct": 0, "emitted": 0, "wall": 0.0, "consts": {k: job[k] for k in ("mode", "runs", "steps", "caps", "classes")},
            "cmd": "harness trace ... ; TRACE=<file> tlc -workers 1 -config Trace.cfg Trace.tla (POSTCONDITION Accepted)", "ok": True}
     for prof, binp in bins.items():
@@ -346,11 +358,12 @@ def trace_job(pid, tier, seed, job, bins, tag, jkey):
                             break
             except Exception:
                 pass
-            props = trace_props((ev or {}).get("o", {})) if ev else {"CRASH"}
+            mw = re.search(r'"REJECTED-AT",\s*\d+,\s*"(\w+)"', q.stdout)
+            props = trace_props((ev or {}).get("o", {}), mw.group(1) if mw else "ALLOW") if ev else {"CRASH"}
             why = "the harness died while recording" if crashed and ev is None else "TLC rejects event %d of the recorded execution: it is not a step the specification (Dict.tla) allows" % depth
             errs = [l for l in q.stdout.splitlines() if l.startswith("Error:") or "REJECTED" in l]
             for pr in props:
-                rep["fail_examples"].setdefault(pr, []).append({"line": depth, "how": "trace validation (direction B), %s build" % prof,
+                rep["fail_examples"].setdefault(pr, []).append({"line": depth, "how": "trace validation (direction B), %s build" % prof, "trace": True,
                                                                  "msg": "%s; viol=%s; %s" % (why, (ev or {}).get("viol"), " | ".join(errs)[:400]), "transition": ev})
                 rep["fail_counts"][pr] = 1
         else:
@@ -456,7 +469,7 @@ def run_matrix(tier, seed, only=None):
             owned = any(pid in owners.get(k, ()) for k in owners if base and json.loads(k).get("family") == json.loads(base).get("family")
                         and json.loads(k).get("consts") == json.loads(base).get("consts") and json.loads(k).get("mode") == json.loads(base).get("mode")
                         and json.loads(k).get("spec") == json.loads(base).get("spec") and json.loads(k).get("sweep") == json.loads(base).get("sweep"))
-            if props & gate and owned:
+            if (props & gate if not ex.get("trace") else pid in props) and owned:
                 mine.append(ex)
         if pid == "C06":
             mine.extend(ex for props, ex in fl)
@@ -517,7 +530,8 @@ def jobs_for(pid, tier):
 
     tmap, tset = [trace("trace-map", "map")], [trace("trace-set", "set")]
     # one long history in a container of capacity 300 (slot indices beyond one byte)
-    tbig = [dict(trace("trace-big", "map"), runs=(1 if q else 3), steps=(1500 if q else 2500), caps=[300], classes=400)]
+    tbig = [dict(trace("trace-big", "map"), runs=(1 if q else 3), steps=(1500 if q else 2500), caps=[300], classes=400,
+                 profiles=(["release"] if q else ["debug", "release"]))]
     qcaps = [(2, 3), (3, 2), (0, 2), (2, 0)]
     tcaps = [(2, 3), (3, 2), (0, 2), (2, 0), (0, 0), (1, 1), (2, 2), (3, 3), (3, 4), (4, 3), (4, 4), (2, 4), (4, 2)]
     core = both("core", ["core"])
@@ -544,7 +558,7 @@ def jobs_for(pid, tier):
         "C13": prof(both("disjoint", ["disjoint"], consts={"Vers": [0], "MaxKs": 3}, bigconsts={"MaxKs": 4}), "asan", "miri") + tmap + tbig,
         "C16": both("bulk", ["bulk"], bigconsts={"MaxExtra": 1}) + both("setbulk", ["bulk"], mode="set", consts={"MaxExtra": 1}, bigconsts={"Vers": [0]}),
         "C18": both("unchecked", ["unchecked"], consts={"MaxKs": 3}, bigconsts={"Vers": [0], "MaxKs": 4}) + tmap + tbig,
-        "C19": both("fmt", ["fmt", "cursor"]) + setcore
+        "C19": both("fmt", ["fmt", "cursor"]) + core + setcore
                + ([J("fmt-n3", ["fmt"], consts={"Caps": [3], "Vers": [0], "Vals": [0]}), J("setfmt-n3", ["fmt"], mode="set", consts={"Caps": [3], "Vers": [0]})] if q else []),
         "C08": pairs("alg", ["algebra"], "set", qcaps if q else tcaps),
         "C14": pairs("eqset", ["eq"], "set", qcaps if q else tcaps) + pairs("eqmap", ["eq"], "map", qcaps[:2] if q else tcaps[:9]),
@@ -627,7 +641,8 @@ def run_check(pid, tier, seed):
         summary["nostd_probe"] = info
         failures.extend(fl)
     gate = GATES.get(pid, {pid, "CRASH"}) | {"SPEC"}
-    mine = [ex for props, ex in failures if props & gate]
+    # (a rejected trace event is attributed exactly; the widened gates apply to replayed transitions only)
+    mine = [ex for props, ex in failures if (props & gate if not ex.get("trace") else pid in props)]
     # a recorded (not repaired) genuine defect is a finding, not an alarm to keep raising
     known = known_sites(pid)
     if known and mine:
